@@ -3,7 +3,8 @@ PROP = dict(
     gotest="TestC01",
     model="coq/Models/AmmLedger.v (Level A: pool ledger primitives and paired operations; Level B: UpdatePoolForSwap + OnCollectFee with the shared in-memory pool array, cache-context branch and failure points)",
     coq_deps=["Base/", "Models/AmmLedger.v", "Proofs/AmmLedgerProofs.v", "Run/AmmLedgerRun.v", "Props/C01.v"],
-    rule="histories of 30-55 ops over the full app (swaps exact-in/out both directions on an oracle and a constant-product pool, multi-hop, joins, exits, "
+    rule="histories of 30-55 ops over the full app; two of three on a market with a SECOND oracle pool uusdc/aweth (18 decimals, price 2000, leverage + perpetual enabled; every "
+         "pool-naming op picks either oracle pool, routes cross both via uusdc, 18-decimals dust) (swaps exact-in/out both directions on an oracle and a constant-product pool, multi-hop, joins, exits, "
          "stable-stake bond/unbond, leveraged-LP open/close/close-positions, perpetual long/short open/close/close-positions, oracle price moves, "
          "donations to pool addresses, block gaps 5s..1day), amounts per decade 1..1e12, every 2nd op followed by a real FinalizeBlock+Commit; "
          "the pool-related committed bank operations of every tx and every block (from SDK bank events) are replayed through the Coq ledger and "
